@@ -522,14 +522,24 @@ def load_corpus(prop):
 def replay(payload):
     binary = common.harness_build("ceremony")
     sc = payload.get("scenario")
-    print(json.dumps(common.harness_one(binary, sc))[:4000])
-    return 0
+    out = common.harness_one(binary, sc)
+    print(json.dumps(out)[:4000])
+    # scenarios judged on the observation alone carry their tag: judge again
+    verdicts = []
+    if isinstance(sc, dict) and sc.get("prompt_tag"):
+        verdicts = judge_prompt_action(sc, out)
+    elif isinstance(sc, dict) and sc.get("held_tag"):
+        import c19
+        verdicts = c19.judge_held(sc, out)
+    for clause, msg in verdicts:
+        print("REPLAY: %s: %s" % (clause, msg))
+    return 1 if verdicts else 0
 
 
 # --------------------------------------------------------------------------------------------
 # random multi-operation histories (shared generator)
 
-RPS = ["example.com", "login.example.com", "other.org", "xn--bcher-kva.example"]
+RPS = ["example.com", "login.example.com", "other.org", "xn--bcher-kva.example", "Future.1Password.COM"]   # the last one: CTAP2 callers may send any spelling
 COUNTERS = [None, 0, 1, 5, 2**31 - 1, 2**31, 2**32 - 2, 2**32 - 1]
 STORE_KINDS = ["ref", "ref", "memory", "option", "arc_mutex_memory", "arc_rwlock_memory", "mutex_memory", "rwlock_memory",
                "arc_mutex_option", "arc_rwlock_ref", "arc_mutex_ref"]
@@ -710,6 +720,100 @@ def find_contract_oracle(sc, out):
                     viol.append("lookup for rp=%s ids=%s returned %s, contract says %s" % (e["rp"], e["ids"], got, want))
         content = obs["store_after"]
     return viol, known
+
+
+# --------------------------------------------------------------------------------------------
+# the store changes while a ceremony waits in the consent prompt (shared stores; harness: "during" actions of a user script entry)
+
+def prompt_action_scenarios(run):
+    rng = run.rng
+    scs = []
+    cid = bytes([0xD1]) * 16
+    shown = mk_passkey(rng, "example.com", cred_id=cid, counter=5, keyidx=0, user_handle=b"\x0a\x0b")
+    other = mk_passkey(rng, "example.com", cred_id=cid, counter=9, keyidx=1, user_handle=b"\x0c\x0d\x0e")
+    bystander = mk_passkey(rng, "example.com", cred_id=bytes([0xD2]) * 16, counter=2, keyidx=2)
+    ok = {"presence": True, "verification": True}
+    for kind in ("arc_mutex_ref", "arc_rwlock_ref", "arc_mutex_memory", "arc_rwlock_memory", "arc_mutex_option"):
+        content = [shown] if "option" in kind else [bystander, shown]
+        for tag, acts in (("replace", [{"act": "replace", "p": other}]), ("remove", [{"act": "remove", "id": cid.hex()}]),
+                          ("remove-bystander", [{"act": "remove", "id": bystander["cred_id"]}]), ("none", [])):
+            for uv in (False, True):
+                sc = scenario(store_kind=kind, content=content, config={"counter": True},
+                              user={"script": [dict(ok, during=acts), ok]},
+                              ops=[{"op": "get_assertion", "req": ga_req(rng, allow=[cid], uv=uv)}, {"op": "get_assertion", "req": ga_req(rng, allow=[cid], uv=uv)}])
+                sc["prompt_tag"] = "assert/" + tag
+                scs.append(sc)
+    for kind in ("arc_mutex_ref", "arc_rwlock_ref"):
+        for d0 in ("full", "only_non", "forced"):
+            for d1 in ("full", "only_non", "forced"):
+                for rk in (False, True):
+                    sc = scenario(store_kind=kind, disc=d0, content=[bystander], config={"counter": True},
+                                  user={"script": [dict(ok, during=[{"act": "set_disc", "disc": d1}]), ok]},
+                                  ops=[{"op": "make_credential", "req": mc_req(rng, rk=rk, uv=True, user_id=b"\x55\x66")}])
+                    sc["prompt_tag"] = "register/capability"; sc["disc_after"] = d1
+                    scs.append(sc)
+    return scs
+
+
+def judge_prompt_action(sc, out):
+    """(clause, message) failures of one scenario"""
+    if "ops" not in out:
+        return [("crash", "the worker crashed: %s" % json.dumps(out)[:200])]
+    fails = []
+    tag = sc["prompt_tag"]
+    op, obs = sc["ops"][0], out["ops"][0]
+    res, after = obs["result"], obs["store_after"]
+    if tag.startswith("assert/"):
+        check = next((e for e in obs["log"] if e["c"] == "check"), None)
+        if "ok" not in res:
+            fails.append(("C07", "an assertion failed because the store changed during the consent prompt (%s): %s" % (tag, json.dumps(res)[:80])))
+        elif check is None or check["cred"] is None:
+            fails.append(("C04", "the validation step was not shown the credential"))
+        else:
+            o, shown = res["ok"], check["cred"]
+            msg = bytes.fromhex(o["auth_data"]["bytes"]) + bytes.fromhex(op["req"]["cdh"])
+            if not ecdsa_verify(int(shown["key"]["x"], 16), int(shown["key"]["y"], 16), msg, der_sig(bytes.fromhex(o["signature"]))):
+                fails.append(("C04", "the assertion is not signed by the credential that was shown to the user for consent (the record was %s while the prompt "
+                                     "was on screen)" % tag.split("/")[1]))
+            if o["user_handle"] != shown["user_handle"]:
+                fails.append(("C04", "the user handle returned is not the one of the credential shown to the user"))
+            stored = next((p for p in after if p["cred_id"] == o["cred_id"]), None)
+            if stored is None or stored["counter"] != o["auth_data"]["counter"]:
+                fails.append(("C07", "an assertion with counter %s was returned, the store holds %s for that credential afterwards: the store never accepted "
+                                     "the counter value (%s during the prompt)" % (o["auth_data"]["counter"], None if stored is None else stored["counter"], tag.split("/")[1])))
+    else:
+        d1, rk = sc["disc_after"], op["req"]["opts"]["rk"]
+        if rk and d1 == "only_non":
+            if res.get("err") != 0x2B:
+                fails.append(("C11", "a resident key was required and the store (capability changed to non-discoverable-only during the prompt) cannot hold one, "
+                                     "but the registration answered %s" % json.dumps(res)[:80]))
+            elif len(after) != len(sc["store"]["content"]):
+                fails.append(("C11", "a refused registration stored something"))
+        elif "ok" not in res:
+            fails.append(("C11", "registration failed although the store's capability (%s when the credential is saved) allows it: %s" % (d1, json.dumps(res)[:80])))
+        else:
+            new = [p for p in after if p["cred_id"] == res["ok"]["auth_data"]["acd"]["cred_id"]]
+            want = (rk and d1 != "only_non") or d1 == "forced"
+            if not new:
+                fails.append(("C07", "a successful registration is not in the store"))
+            elif (new[0]["user_handle"] is not None) != want:
+                fails.append(("C11", "the store's capability is %s when the credential is saved (it changed during the consent prompt), rk=%s: the user handle "
+                                     "must %sbe stored, the saved record has %s" % (d1, rk, "" if want else "not ", new[0]["user_handle"])))
+    return fails
+
+
+def check_prompt_actions(run, clauses, binary=None):
+    binary = binary or common.harness_build("ceremony")
+    scs = prompt_action_scenarios(run)
+    outs = run_scenarios(binary, scs)
+    n = 0
+    for sc, out in zip(scs, outs):
+        for clause, msg in judge_prompt_action(sc, out):
+            if clause in clauses or clause == "crash":
+                n += 1
+                if n <= 2:
+                    run.violation({"kind": msg, "scenario": sc, "observed": out})
+    return {"prompt_action_scenarios": len(scs), "prompt_action_failures": n}
 
 
 # --------------------------------------------------------------------------------------------
